@@ -21,17 +21,19 @@ EXTENDS Naturals, Integers, Sequences, FiniteSets, TLC, Json
 CONSTANTS Classes,      \* subset of {"article", "book"}
           NumDepths,    \* values of sec-num-depth explored
           MaxEvents,
+          NewCounterWithin,  \* TRUE: \newcounter{c}[within] really numbers c within the other counter (repaired);
+                             \* FALSE: the optional argument is never understood and c is never reset (as built, F40)
           SetResets     \* TRUE: setcounter/addtocounter also reset the dependants (as built, F22);
                         \* FALSE: only stepping resets (repaired, LaTeX)
 
 Ctrs == {"chapter", "section", "subsection", "subsubsection", "equation", "figure", "table",
-         "enumi", "enumii", "enumiii", "enumiv", "tha", "thw"}
+         "enumi", "enumii", "enumiii", "enumiv", "tha", "thw", "ucw"}     \* ucw: \newcounter{ucw}[section] in the preamble
 None == "none"
 Within == [c \in Ctrs |->
              CASE c = "section" -> "chapter" [] c = "subsection" -> "section" [] c = "subsubsection" -> "subsection"
                [] c \in {"equation", "figure", "table"} -> "chapter"
                [] c = "enumii" -> "enumi" [] c = "enumiii" -> "enumii" [] c = "enumiv" -> "enumiii"
-               [] c = "thw" -> "section" [] OTHER -> None]
+               [] c = "thw" -> "section" [] c = "ucw" -> "section" [] OTHER -> None]
 Enum == <<"enumi", "enumii", "enumiii", "enumiv">>
 SecCtr == <<"chapter", "section", "subsection", "subsubsection">>       \* index = level + 1
 
@@ -53,8 +55,10 @@ vars == <<cls, numdepth, val, rval, app, depth, items, printed, rprinted, mustse
 view == <<cls, numdepth, val, rval, app, depth, items, mustsec, n, printed, rprinted>>
 
 (* ---- primitive counter operations ---- *)
-MStep(v, c) == [d \in Ctrs |-> IF d = c THEN v[c] + 1 ELSE IF d \in Below(c) THEN 0 ELSE v[d]]
-MSet(v, c, x) == [d \in Ctrs |-> IF d = c THEN x ELSE IF SetResets /\ d \in Below(c) THEN 0 ELSE v[d]]
+(* what the machine resets: the user counter's `within` link exists only if \newcounter understood its optional argument *)
+MBelow(c) == IF NewCounterWithin THEN Below(c) ELSE Below(c) \ {"ucw"}
+MStep(v, c) == [d \in Ctrs |-> IF d = c THEN v[c] + 1 ELSE IF d \in MBelow(c) THEN 0 ELSE v[d]]
+MSet(v, c, x) == [d \in Ctrs |-> IF d = c THEN x ELSE IF SetResets /\ d \in MBelow(c) THEN 0 ELSE v[d]]
 RStep(v, c) == [d \in Ctrs |-> IF d = c THEN v[c] + 1 ELSE IF d \in Below(c) THEN 0 ELSE v[d]]
 RSet(v, c, x) == [v EXCEPT ![c] = x]
 
@@ -107,6 +111,9 @@ Table == depth = 0 /\ Numbered("tab", "table") /\ Log(Ev("tab", 0, 0, ""))
 Theorem(t) == /\ depth = 0 /\ t \in {"own", "shared", "within"}
               /\ Numbered("thm", IF t = "within" THEN "thw" ELSE "tha")
               /\ Log(Ev("thm", 0, 0, t))
+
+(* \stepcounter{ucw} followed by its printed value *)
+UserCounter == depth = 0 /\ Numbered("uc", "ucw") /\ Log(Ev("uc", 0, 0, ""))
 
 (* eqnarray with two rows; pat says which rows carry \nonumber.  Every row steps the counter; \nonumber
    takes the step back (addtocounter(-1)) and the row prints nothing *)
@@ -183,7 +190,7 @@ Init == /\ cls \in Classes /\ numdepth \in NumDepths
         /\ n = 0 /\ hist = <<>>
 
 Next == \/ \E l \in 0..3, s \in BOOLEAN : Section(l, s)
-        \/ Equation \/ Figure \/ Table \/ Item \/ EndList \/ Appendix
+        \/ Equation \/ Figure \/ Table \/ UserCounter \/ Item \/ EndList \/ Appendix
         \/ \E t \in {"own", "shared", "within"} : Theorem(t)
         \/ \E p \in {<<FALSE, FALSE>>, <<TRUE, FALSE>>, <<FALSE, TRUE>>, <<TRUE, TRUE>>} : EqnArray(p)
         \/ \E k \in {"enumerate", "itemize"} : BeginList(k)
